@@ -74,7 +74,7 @@ func panicRules(roots []string) func(p *Prog, r *Report) {
 
 func init() {
 	register("C01",
-		"Structural clauses of 'XML decodes to the documented Map under all options' decided on xmlToMapParser: INFL.cover (attribute keys depend on attrPrefix, lowerCase, snakeCaseKeys and the attribute name; element keys on lowerCase/snakeCaseKeys; text on trimRunes and xmlEscapeCharsDecoder and passes through cast with the decoder's flag; text-key choice on decodeSimpleValuesAsMap; _seq only under includeTagSeqNum), INFL.castflag (structure independent of the cast flag), TABLE.keys (shared key variables, no literals), DECODE.sibling (every decoded child is stored on every path; repeated siblings are append(existing, new)), PAIR.seqnum (the _seq number is a running counter advanced with every child), OPT.setter + PAIR.derived for the options the decoder reads (each setter stores what its documentation says for no, one and more arguments; trimRunes follows disableTrimWhiteSpace), TEXT.nonempty (character data is stored only under a non-emptiness test of the trimmed text that is stored: white space between children never becomes or overwrites a text value), FOLD.total (snake-case folding replaces every hyphen), TABLE.escape (decoder-side escaping touches exactly the five special characters, '&' first), PANIC.nil/assert/idx on the decoder. Not decided: equality of the produced Map with the documented one (trimming results, collisions, case-folding values). TEXT.trimset (character data is trimmed with the option's cut set trimRunes only); TABLE.naninf for the decoder's cast. TABLE.trimset (the two trim cut sets differ by the blank only); FOLD.total whole-key clause (lower-casing applies to the assembled key)."+levelNote,
+		"Structural clauses of 'XML decodes to the documented Map under all options' decided on xmlToMapParser: INFL.cover (attribute keys depend on attrPrefix, lowerCase, snakeCaseKeys and the attribute name; element keys on lowerCase/snakeCaseKeys; text on trimRunes and xmlEscapeCharsDecoder and passes through cast with the decoder's flag; text-key choice on decodeSimpleValuesAsMap; _seq only under includeTagSeqNum), INFL.castflag (structure independent of the cast flag), TABLE.keys (shared key variables, no literals), DECODE.sibling (every decoded child is stored on every path; repeated siblings are append(existing, new)), PAIR.seqnum (the _seq number is a running counter advanced with every child), OPT.setter + PAIR.derived for the options the decoder reads (each setter stores what its documentation says for no, one and more arguments; trimRunes follows disableTrimWhiteSpace), TEXT.nonempty (character data is stored only under a non-emptiness test of the trimmed text that is stored: white space between children never becomes or overwrites a text value), FOLD.total (snake-case folding replaces every hyphen), TABLE.escape (decoder-side escaping touches exactly the five special characters, '&' first), PANIC.nil/assert/idx on the decoder. Not decided: equality of the produced Map with the documented one (trimming results, collisions, case-folding values). TEXT.trimset (character data is trimmed with the option's cut set trimRunes only); TABLE.naninf for the decoder's cast. TABLE.trimset (the two trim cut sets differ by the blank only); FOLD.total whole-key clause (lower-casing applies to the assembled key). OPT.excl (the coupled escape setters)."+levelNote,
 		[]string{"documented option semantics transcribed in rules_infl.go"},
 		ruleInflCover,
 		func(p *Prog, r *Report) { ruleInflCastFlag(p, r) },
@@ -89,14 +89,16 @@ func init() {
 		func(p *Prog, r *Report) { ruleTextTrimSet(p, r, []string{"mxj.xmlToMapParser"}) },
 		ruleTableTrimSet,
 		func(p *Prog, r *Report) { ruleFoldWhole(p, r, []string{"mxj.xmlToMapParser"}) },
+		ruleOptExcl,
 		func(p *Prog, r *Report) { ruleCastOpaque(p, r, []string{"mxj.xmlToMapParser"}) },
 		panicRules(grpMapDecode))
 
 	register("C02",
-		"Structural agreement of decoder and encoder conventions: TABLE.keys (both halves read the shared key variables), FOLD.total (the decoder's snake-case folding replaces every hyphen, so it is idempotent: the names the encoder writes decode to themselves), PAIR.derived (lenAttrPrefix tracks attrPrefix), TABLE.partition (attribute / text / element partition of a map's keys is the same predicate in both scans), ESC.flow (every Map value reaches the output escaped unless xmlEscapeChars is known false), TABLE.escape (entity table, order, no unescaped early return), ORDER (sorted emission), WALK.arms (every list member and collected child is encoded), TAGS.protocol (path-sensitive typestate of the Map element encoder: on every path feasible for a decoder-shaped value the buffer writes follow start tag, attributes, close, content, end tag / self-close; start and end tag name the same parameter; no successful return leaves an open element), ROOT.single (each encoder passes exactly one call of the element encoder on every path that returns a document; the call on the receiver's single entry is guarded by len == 1), TAGS.content (on no path is the element completed while its text entry or scalar value — string, number or boolean, as float/bool casting produces — has not been written). Not decided: equality of the second decode with the first; well-formedness of names and of the sequence encoder's output. ROOT.ownkey (in the single-member case the whole Map is wrapped in the default root only for a list member). TABLE.trimset."+levelNote,
+		"Structural agreement of decoder and encoder conventions: TABLE.keys (both halves read the shared key variables), FOLD.total (the decoder's snake-case folding replaces every hyphen, so it is idempotent: the names the encoder writes decode to themselves), PAIR.derived (lenAttrPrefix tracks attrPrefix), TABLE.partition (attribute / text / element partition of a map's keys is the same predicate in both scans), ESC.flow (every Map value reaches the output escaped unless xmlEscapeChars is known false), TABLE.escape (entity table, order, no unescaped early return), ORDER (sorted emission), WALK.arms (every list member and collected child is encoded), TAGS.protocol (path-sensitive typestate of the Map element encoder: on every path feasible for a decoder-shaped value the buffer writes follow start tag, attributes, close, content, end tag / self-close; start and end tag name the same parameter; no successful return leaves an open element), ROOT.single (each encoder passes exactly one call of the element encoder on every path that returns a document; the call on the receiver's single entry is guarded by len == 1), TAGS.content (on no path is the element completed while its text entry or scalar value — string, number or boolean, as float/bool casting produces — has not been written). Not decided: equality of the second decode with the first; well-formedness of names and of the sequence encoder's output. ROOT.ownkey (in the single-member case the whole Map is wrapped in the default root only for a list member). TABLE.trimset. DECODE.sibling; TABLE.castparsers clause: ParseFloat is not behind a screen of the text."+levelNote,
 		nil,
 		ruleTagProtocol, func(p *Prog, r *Report) { ruleTagContent(p, r, "map") }, ruleTableKeys, ruleRootSingle, ruleRootOwnKey,
 		ruleInflCover, ruleTableNanInf, ruleTableTrimSet,
+		func(p *Prog, r *Report) { ruleDecodeSibling(p, r, []string{"mxj.xmlToMapParser"}) }, ruleCastUnscreened,
 		func(p *Prog, r *Report) { ruleElemAlways(p, r, []string{"mxj.marshalMapToXmlIndent"}) },
 		func(p *Prog, r *Report) { ruleTextNonEmpty(p, r, []string{"mxj.xmlToMapParser"}) },
 		func(p *Prog, r *Report) { ruleCastOpaque(p, r, []string{"mxj.xmlToMapParser"}) },
@@ -106,7 +108,7 @@ func init() {
 		func(p *Prog, r *Report) { ruleWalkArms(p, r, []string{"mxj.marshalMapToXmlIndent"}) })
 
 	register("C03",
-		"Structural clauses of 'encoding a JSON-shaped value as XML preserves all data': WALK.arms (every list member encoded in order under its key, every collected child encoded, AnyXml encodes every member of a list value), ROOT.explicit (AnyXml / AnyXmlIndent always name the root when they hand a map to Map.Xml / XmlIndent), TABLE.partition, ESC.flow, TABLE.escape (all five special characters are escaped, '&' first, no early return leaves one unescaped), ERR.path on the Map encoders and AnyXml/AnyXmlIndent (an element encoder error cannot be overwritten or dropped), TAGS.protocol (typestate of the element encoder: every path feasible for a JSON-shaped value writes a complete, properly nested element), TAGS.content (no scalar value or text entry is dropped: a write computed from it precedes the end of the element on every path), OWN.private (the document returned is not reachable from package state — a pooled or cached buffer — so no later call can rewrite it), RENDER.lossless (no value-changing numeric conversion between the encoded value and its text). Not decided: decode(encode(m)) ≅ m; well-formedness for arbitrary key strings. ROOT.ownkey (in the single-member case the whole Map is wrapped in the default root only for a list member). OPT.excl (the coupled escape setters)."+levelNote,
+		"Structural clauses of 'encoding a JSON-shaped value as XML preserves all data': WALK.arms (every list member encoded in order under its key, every collected child encoded, AnyXml encodes every member of a list value), ROOT.explicit (AnyXml / AnyXmlIndent always name the root when they hand a map to Map.Xml / XmlIndent), TABLE.partition, ESC.flow, TABLE.escape (all five special characters are escaped, '&' first, no early return leaves one unescaped), ERR.path on the Map encoders and AnyXml/AnyXmlIndent (an element encoder error cannot be overwritten or dropped), TAGS.protocol (typestate of the element encoder: every path feasible for a JSON-shaped value writes a complete, properly nested element), TAGS.content (no scalar value or text entry is dropped: a write computed from it precedes the end of the element on every path), OWN.private (the document returned is not reachable from package state — a pooled or cached buffer — so no later call can rewrite it), RENDER.lossless (no value-changing numeric conversion between the encoded value and its text). Not decided: decode(encode(m)) ≅ m; well-formedness for arbitrary key strings. ROOT.ownkey (in the single-member case the whole Map is wrapped in the default root only for a list member). OPT.excl (the coupled escape setters). JSON.decoder for NewMapJson."+levelNote,
 		nil,
 		ruleTagProtocol, func(p *Prog, r *Report) { ruleTagContent(p, r, "map") }, ruleRootSingle, ruleRootOwnKey,
 		func(p *Prog, r *Report) { ruleRenderLossless(p, r, []string{"mxj.marshalMapToXmlIndent"}) },
@@ -115,6 +117,7 @@ func init() {
 		},
 		func(p *Prog, r *Report) { ruleWalkArms(p, r, []string{"mxj.marshalMapToXmlIndent"}) },
 		ruleAnyXmlList, ruleAnyXmlNilOnly, ruleTablePartition, ruleEsc, ruleTableEscape, ruleValidCoupling, ruleOptExcl,
+		ruleJsonDecoderFor([]string{"mxj.NewMapJson"}),
 		func(p *Prog, r *Report) { ruleErrContent(p, r, []string{"mxj.marshalMapToXmlIndent"}) },
 		func(p *Prog, r *Report) { ruleElemAlways(p, r, []string{"mxj.marshalMapToXmlIndent"}) },
 		func(p *Prog, r *Report) {
@@ -122,13 +125,13 @@ func init() {
 		})
 
 	register("C04",
-		"Structural clauses of the MapSeq round trip: PAIR.seq (every token kind gets a fresh sequence number that is advanced in the same block; attributes take their index; the child collection skips exactly the attribute and sequence keys), ORDER on the sequence encoder (attributes and children are sorted by sequence number before any write), DECODE.sibling and WALK.arms for the sequence codec, SHAPE.seq (decoder output has the shape the encoder asserts), PANIC.* on both halves, WRAP.compose for BeautifyXml, TAGS.seqprotocol (token-level typestate of the sequence encoder: < name, blank name = quoted value, then either > content </ name > or />, comment / directive / processing-instruction forms; no successful return leaves an open element), TAGS.content (the text entry and the scalar value are written on every path that completes the element, for strings and for the numbers / booleans casting produces), OWN.private (the encoded document is not reachable from package state), SEQ.unwind (every member of a list of same-named children is a sort entry of its own), SEQ.result (the map the decoder returns for an element is written only when the element ends, so nothing collected for it is dropped), SEQ.types (every typed read of a '#seq' entry accepts int and float64), SEQ.leafkeys (every scan of an element's keys sets the same reserved keys aside as the child collection does), TEXT.nonempty (character data is recorded only under a non-emptiness test of the trimmed text that is stored, so indentation never replaces an element's text), RENDER.lossless. Not decided: token-stream equality. TEXT.trimset (character data is trimmed with the option's cut set only), ESC.verbatim (nothing in the arms for comments, directives and processing instructions reaches escapeChars), ROOT.ownkey (default-root wrap only for a list member)."+levelNote,
+		"Structural clauses of the MapSeq round trip: PAIR.seq (every token kind gets a fresh sequence number that is advanced in the same block; attributes take their index; the child collection skips exactly the attribute and sequence keys), ORDER on the sequence encoder (attributes and children are sorted by sequence number before any write), DECODE.sibling and WALK.arms for the sequence codec, SHAPE.seq (decoder output has the shape the encoder asserts), PANIC.* on both halves, WRAP.compose for BeautifyXml, TAGS.seqprotocol (token-level typestate of the sequence encoder: < name, blank name = quoted value, then either > content </ name > or />, comment / directive / processing-instruction forms; no successful return leaves an open element), TAGS.content (the text entry and the scalar value are written on every path that completes the element, for strings and for the numbers / booleans casting produces), OWN.private (the encoded document is not reachable from package state), SEQ.unwind (every member of a list of same-named children is a sort entry of its own), SEQ.result (the map the decoder returns for an element is written only when the element ends, so nothing collected for it is dropped), SEQ.types (every typed read of a '#seq' entry accepts int and float64), SEQ.leafkeys (every scan of an element's keys sets the same reserved keys aside as the child collection does), TEXT.nonempty (character data is recorded only under a non-emptiness test of the trimmed text that is stored, so indentation never replaces an element's text), RENDER.lossless. Not decided: token-stream equality. TEXT.trimset (character data is trimmed with the option's cut set only), ESC.verbatim (nothing in the arms for comments, directives and processing instructions reaches escapeChars), ROOT.ownkey (default-root wrap only for a list member). ALIAS.unsafe (no unsafe.Pointer conversions); INFL.cover clause: cast inputs of the sequence decoder depend on xmlEscapeCharsDecoder."+levelNote,
 		nil,
 		ruleTagProtocolSeq, func(p *Prog, r *Report) { ruleTagContent(p, r, "seq") },
 		func(p *Prog, r *Report) {
 			ruleOwnPrivate(p, r, []string{"mxj.MapSeq.Xml", "mxj.MapSeq.XmlIndent", "mxj.BeautifyXml"})
 		},
-		rulePairSeq, ruleSeqUnwind, ruleSeqResult, ruleSeqTypes, ruleSeqLeafKeys, ruleRootSingle, ruleRootOwnKey, ruleEscVerbatim,
+		rulePairSeq, ruleSeqUnwind, ruleSeqResult, ruleSeqTypes, ruleSeqLeafKeys, ruleRootSingle, ruleRootOwnKey, ruleEscVerbatim, ruleNoUnsafe, ruleInflCover,
 		func(p *Prog, r *Report) { ruleErrContent(p, r, []string{"mxj.mapToXmlSeqIndent"}) },
 		func(p *Prog, r *Report) { ruleTextNonEmpty(p, r, []string{"mxj.xmlSeqToMapParser"}) },
 		func(p *Prog, r *Report) { ruleTextTrimSet(p, r, []string{"mxj.xmlSeqToMapParser"}) },
@@ -142,9 +145,10 @@ func init() {
 		panicRules(concat(grpSeqDecode, grpSeqEncode, grpBeautify)))
 
 	register("C05",
-		"Structural clauses of 'special characters survive; invalid output is an error': ESC.flow (value sinks of both encoders), TABLE.escape, OPT.excl (encoder- and decoder-side escaping never both on), VALID.coupling (each of the four encoders validates the very bytes it returns, under xmlCheckIsValid, to their end, with a decoder that keeps the default strict settings and reads a copy, not the output buffer), ERR.path on the four encoders (an encoder or validator error always reaches the caller), TAGS.protocol / TAGS.seqprotocol (the markup the two element encoders write around the escaped values is a properly nested start tag / attributes / content / end tag sequence on every path). Not decided: exact value recovery, absence of double escaping for already-escaped input, well-formedness of names. ROOT.ownkey."+levelNote,
+		"Structural clauses of 'special characters survive; invalid output is an error': ESC.flow (value sinks of both encoders), TABLE.escape, OPT.excl (encoder- and decoder-side escaping never both on), VALID.coupling (each of the four encoders validates the very bytes it returns, under xmlCheckIsValid, to their end, with a decoder that keeps the default strict settings and reads a copy, not the output buffer), ERR.path on the four encoders (an encoder or validator error always reaches the caller), TAGS.protocol / TAGS.seqprotocol (the markup the two element encoders write around the escaped values is a properly nested start tag / attributes / content / end tag sequence on every path). Not decided: exact value recovery, absence of double escaping for already-escaped input, well-formedness of names. ROOT.ownkey. OPT.setter for the validity and escape switches."+levelNote,
 		nil,
 		ruleTagProtocol, ruleTagProtocolSeq, ruleEsc, ruleTableEscape, ruleOptExcl, ruleValidCoupling, ruleRootSingle, ruleRootOwnKey, ruleInflCover,
+		ruleOptSetterFor([]string{"mxj.xmlCheckIsValid", "mxj.xmlEscapeChars", "mxj.xmlEscapeCharsDecoder"}),
 		func(p *Prog, r *Report) {
 			ruleErr(p, r, []string{"mxj.Map.Xml", "mxj.Map.XmlIndent", "mxj.MapSeq.Xml", "mxj.MapSeq.XmlIndent"}, "the four XML encoders")
 		})
@@ -170,11 +174,13 @@ func init() {
 		})
 
 	register("C07",
-		"Structural clauses of ValuesForPath exactness: PAIR.count (result is ret[:cnt] with cnt == len(ret)), WALK.progress (each recursion consumes exactly one segment; values are appended only when the path is exhausted), WALK.collect (collecting helpers are not recursive), ALIAS.reuse (no result buffer shares the array of a slice still being ranged over faster than it is consumed), WRAP.compose for ValueForPath / ValueForPathString / Exists (first value / non-empty of the plural form), PANIC.idx/assert on the indexed-path wrapper and the path parser, PRESENCE.commaok (whether a node has a key is decided by the comma-ok lookup, never by comparing the value with nil: null is a value), ITER.fresh (each parsed path segment is built from that segment only: no index or array flag left over from the previous one), WALK.lastindex (the indexed walker tests the type of a selected value only where segments remain: a final indexed step returns its member whatever its type). Not decided: that the returned multiset is the denoted one. WALK.literalkeys (no numeric conversion of a path segment in the legacy walker)."+levelNote,
+		"Structural clauses of ValuesForPath exactness: PAIR.count (result is ret[:cnt] with cnt == len(ret)), WALK.progress (each recursion consumes exactly one segment; values are appended only when the path is exhausted), WALK.collect (collecting helpers are not recursive), ALIAS.reuse (no result buffer shares the array of a slice still being ranged over faster than it is consumed), WRAP.compose for ValueForPath / ValueForPathString / Exists (first value / non-empty of the plural form), PANIC.idx/assert on the indexed-path wrapper and the path parser, PRESENCE.commaok (whether a node has a key is decided by the comma-ok lookup, never by comparing the value with nil: null is a value), ITER.fresh (each parsed path segment is built from that segment only: no index or array flag left over from the previous one), WALK.lastindex (the indexed walker tests the type of a selected value only where segments remain: a final indexed step returns its member whatever its type). Not decided: that the returned multiset is the denoted one. WALK.literalkeys (no numeric conversion of a path segment in the legacy walker). WALK.progress clause: the exhausted-path test precedes every test of the node; OPT.scope (query group)."+levelNote,
 		nil,
 		func(p *Prog, r *Report) { rulePairCount(p, r, []string{"mxj.Map.oldValuesForPath"}) },
 		func(p *Prog, r *Report) { ruleIterFresh(p, r, []string{"mxj.parsePath"}) },
 		func(p *Prog, r *Report) { ruleWalkLiteralKeys(p, r, []string{"mxj.valuesForKeyPath"}) },
+		func(p *Prog, r *Report) { ruleWalkNullLeaf(p, r, []string{"mxj.valuesForKeyPath"}) },
+		func(p *Prog, r *Report) { ruleOptScope(p, r, "Query") },
 		func(p *Prog, r *Report) { rulePathVerbatim(p, r, "mxj.parsePath") },
 		func(p *Prog, r *Report) {
 			in := map[string]bool{}
@@ -213,7 +219,7 @@ func init() {
 		panicRules([]string{"mxj.Map.ValuesForPath", "mxj.Map.ValueForPath", "mxj.Map.ValueForPathString", "mxj.Map.Exists"}))
 
 	register("C08",
-		"Structural clauses of key search and sub-key filters: WALK.total (hasKey and hasKeyPath visit every map entry and list member), WALK.collect, PAIR.count (ValuesForKey), INFL.filter (sub-keys reach only the predicate; no sub-keys means no filtering; the predicate is read-only), INFL.crumb (child paths never contain the searched key), INFL.metric (shortest path by segment count), INFL.cover (sub-key specifications are split on fieldSep), EFFECT.recv for the query methods, PRESENCE.commaok, PRED.local (the sub-key predicate rejects a map only inside the loop over the conditions). Not decided: set equality between ValuesForKey, PathsForKey and ValuesForPath; the predicate's truth table. OPT.setter for SetFieldSeparator; PAIR.count for the path walker's counter (appends and advances paired by amount)."+levelNote,
+		"Structural clauses of key search and sub-key filters: WALK.total (hasKey and hasKeyPath visit every map entry and list member), WALK.collect, PAIR.count (ValuesForKey), INFL.filter (sub-keys reach only the predicate; no sub-keys means no filtering; the predicate is read-only), INFL.crumb (child paths never contain the searched key), INFL.metric (shortest path by segment count), INFL.cover (sub-key specifications are split on fieldSep), EFFECT.recv for the query methods, PRESENCE.commaok, PRED.local (the sub-key predicate rejects a map only inside the loop over the conditions). Not decided: set equality between ValuesForKey, PathsForKey and ValuesForPath; the predicate's truth table. OPT.setter for SetFieldSeparator; PAIR.count for the path walker's counter (appends and advances paired by amount). OPT.scope (query group); ITER.fresh for the entries of getSubKeyMap."+levelNote,
 		nil,
 		func(p *Prog, r *Report) {
 			ruleWalkTotal(p, r, []walkerSpec{{"mxj.hasKey", nil}, {"mxj.hasKeyPath", nil}})
@@ -236,6 +242,8 @@ func init() {
 		},
 		func(p *Prog, r *Report) { rulePairCount(p, r, []string{"mxj.Map.ValuesForKey", "mxj.Map.oldValuesForPath"}) },
 		ruleOptSetterFor([]string{"mxj.fieldSep"}),
+		func(p *Prog, r *Report) { ruleOptScope(p, r, "Query") },
+		func(p *Prog, r *Report) { ruleIterFreshMap(p, r, []string{"mxj.getSubKeyMap"}) },
 		func(p *Prog, r *Report) {
 			ruleWrapCompose(p, r, []wrapSpec{{"mxj.Map.ValueForKey", []string{"mxj.Map.ValuesForKey"}, true}})
 		},
@@ -287,11 +295,13 @@ func init() {
 		panicRules(grpLeaf))
 
 	register("C10",
-		"Structural clauses of UpdateValuesForPath: PAIR.update (writes only under the update key or the last segment tested equal to it; the stored value is the new value or a list rebuilt from old members and the new value; per block the counter increments equal the replacements; the rebuilt list is stored only when something was replaced; the sub-key conditions guarding a write are evaluated on the node that is written), PRESENCE.commaok (a member holding null under the key is present), WALK.progress (one segment per recursion, hand-over to the leaf function exactly at the last segment), INFL.filter, INFL.cover (new-value strings are split on fieldSep). Not decided: that navigation addresses the same nodes as ValuesForPath; the post-state query clause."+levelNote,
+		"Structural clauses of UpdateValuesForPath: PAIR.update (writes only under the update key or the last segment tested equal to it; the stored value is the new value or a list rebuilt from old members and the new value; per block the counter increments equal the replacements; the rebuilt list is stored only when something was replaced; the sub-key conditions guarding a write are evaluated on the node that is written), PRESENCE.commaok (a member holding null under the key is present), WALK.progress (one segment per recursion, hand-over to the leaf function exactly at the last segment), INFL.filter, INFL.cover (new-value strings are split on fieldSep). Not decided: that navigation addresses the same nodes as ValuesForPath; the post-state query clause. OPT.scope (query group); ITER.fresh for the entries of getSubKeyMap."+levelNote,
 		nil,
 		rulePairUpdate,
 		func(p *Prog, r *Report) { ruleWalkNoEarlyExit(p, r, []string{"mxj.updateValuesForKeyPath", "mxj.updateValue"}) },
 		rulePredLocal, ruleOptWriters,
+		func(p *Prog, r *Report) { ruleOptScope(p, r, "Query") },
+		func(p *Prog, r *Report) { ruleIterFreshMap(p, r, []string{"mxj.getSubKeyMap"}) },
 		func(p *Prog, r *Report) { rulePathWhole(p, r, "mxj.Map.UpdateValuesForPath") },
 		func(p *Prog, r *Report) { ruleTypedValueUsed(p, r, "mxj.Map.UpdateValuesForPath") },
 		func(p *Prog, r *Report) { ruleWalkReentry(p, r, p.scopeFuncs(r, "WALK.reentry", []string{"mxj.Map.UpdateValuesForPath"})) },
@@ -311,9 +321,9 @@ func init() {
 		panicRules([]string{"mxj.Map.UpdateValuesForPath"}))
 
 	register("C11",
-		"Structural clauses of SetValueForPath / Remove / RenameKey: PAIR.atomic (exactly the documented writes, none in a loop, no error return reachable after a write, the renamed value moved unchanged then the old key deleted on the same parent, collision test is a presence test), WALK.progress for the parent walker (parent returned by position, recursion on the rest of the path; a value that is not a map ends the walk with an error), PATH.segments (the path is taken apart at its last separator: the deleted / moved key is the last segment, the sibling that forbids a rename is looked up under the path without its last segment), PANIC.assert/idx/nil, PRESENCE.commaok. Not decided: the frame condition as a whole; refusal to overwrite at top level (a string-value fact). PATH.segments value-independence clause for SetValueForPath."+levelNote,
+		"Structural clauses of SetValueForPath / Remove / RenameKey: PAIR.atomic (exactly the documented writes, none in a loop, no error return reachable after a write, the renamed value moved unchanged then the old key deleted on the same parent, collision test is a presence test), WALK.progress for the parent walker (parent returned by position, recursion on the rest of the path; a value that is not a map ends the walk with an error), PATH.segments (the path is taken apart at its last separator: the deleted / moved key is the last segment, the sibling that forbids a rename is looked up under the path without its last segment), PANIC.assert/idx/nil, PRESENCE.commaok. Not decided: the frame condition as a whole; refusal to overwrite at top level (a string-value fact). PATH.segments value-independence clause for SetValueForPath. PATH.segments clause: SetValueForPath looks the parent up under the path without its last segment."+levelNote,
 		nil,
-		rulePairAtomic, ruleWalkParent, ruleSetValueIndependent, rulePathSegments, ruleParentNotQueried,
+		rulePairAtomic, ruleWalkParent, ruleSetValueIndependent, ruleSetParentPath, rulePathSegments, ruleParentNotQueried,
 		func(p *Prog, r *Report) {
 			in := map[string]bool{}
 			for _, f := range p.scopeFuncs(r, "PRESENCE.commaok", grpMutators[:3]) {
@@ -358,9 +368,9 @@ func init() {
 		})
 
 	register("C14",
-		"Structural clauses of casting: INFL.castflag (the cast flag reaches only cast() and the recursion, so structure cannot depend on it; every cast option is read only on the flag-true path; every return of cast is the identical input string or a successful strconv.Parse* of it), TABLE.naninf (with CastNanInf off all seven spellings strconv.ParseFloat accepts for NaN/Inf are excluded before its result can be returned), cast call-site coverage (attribute, text and simple values of both decoders pass through cast with the decoder's flag), OPT.writers (cast and the decoders write no package variable: what a decode returns depends on the document and the options in force, not on earlier decodes), CAST.opaque (the decoders never test a value of the node under construction for a scalar type: what cast made of a text cannot change the keys), CAST.input (the string handed to cast is computed from the current token only, never from a value read back from the node being built, which has already been cast). Not decided: that each leaf gets exactly the value its text denotes. OPT.setter for the cast option setters."+levelNote,
+		"Structural clauses of casting: INFL.castflag (the cast flag reaches only cast() and the recursion, so structure cannot depend on it; every cast option is read only on the flag-true path; every return of cast is the identical input string or a successful strconv.Parse* of it), TABLE.naninf (with CastNanInf off all seven spellings strconv.ParseFloat accepts for NaN/Inf are excluded before its result can be returned), cast call-site coverage (attribute, text and simple values of both decoders pass through cast with the decoder's flag), OPT.writers (cast and the decoders write no package variable: what a decode returns depends on the document and the options in force, not on earlier decodes), CAST.opaque (the decoders never test a value of the node under construction for a scalar type: what cast made of a text cannot change the keys), CAST.input (the string handed to cast is computed from the current token only, never from a value read back from the node being built, which has already been cast). Not decided: that each leaf gets exactly the value its text denotes. OPT.setter for the cast option setters. TABLE.castparsers clause: ParseFloat is not behind a screen of the text."+levelNote,
 		[]string{"strconv.ParseFloat documentation (accepted NaN/Inf spellings)"},
-		ruleInflCastFlag, ruleTableNanInf, ruleInflCover, ruleCastParsers, ruleOptWriters, ruleSeqCover, ruleSeqCastTag,
+		ruleInflCastFlag, ruleTableNanInf, ruleInflCover, ruleCastParsers, ruleCastUnscreened, ruleOptWriters, ruleSeqCover, ruleSeqCastTag,
 		ruleOptSetterFor([]string{"mxj.castToInt", "mxj.castToFloat", "mxj.castToBool", "mxj.castNanInf", "mxj.checkTagToSkip"}),
 		func(p *Prog, r *Report) { ruleCastInput(p, r, []string{"mxj.xmlToMapParser", "mxj.xmlSeqToMapParser"}) },
 		func(p *Prog, r *Report) { ruleCastOpaque(p, r, []string{"mxj.xmlToMapParser", "mxj.xmlSeqToMapParser"}) })
@@ -377,11 +387,14 @@ func init() {
 		})
 
 	register("C16",
-		"Structural clauses of encoder determinism and variant agreement: ORDER (no order-sensitive effect inside a map range; collected slices sorted before use; the sort key is the map key / sequence number), WRAP.writer (8 writer forms write exactly the encoder's bytes once), WRAP.concat (Maps string forms concatenate per-Map encodings in list order; file forms write exactly the string form), INFL.indent (the indent flag only adds whitespace), SEQ.types (every typed read of a '#seq' entry in the sequence encoder accepts both int and float64, so equal MapSeqs are ordered alike however they were built), VALID.coupling (the optional validity check reads a copy and returns the accumulator's bytes untouched, so the document does not depend on the check being on), TAGS.protocol / TAGS.seqprotocol (in particular: no indentation is written between an element's own text and its end tag, where it would become character data), EFFECT.nondet (no goroutine/time/rand/pool on encoder paths), FWD.variadic/FWD.param (options forwarded), OPT.scope (encoders read only encoder options). Not decided: byte identity between variants beyond the structural identity of the bytes handed on. ROOT.single / ROOT.ownkey; EFFECT.nondet counts object identity as a source."+levelNote,
+		"Structural clauses of encoder determinism and variant agreement: ORDER (no order-sensitive effect inside a map range; collected slices sorted before use; the sort key is the map key / sequence number), WRAP.writer (8 writer forms write exactly the encoder's bytes once), WRAP.concat (Maps string forms concatenate per-Map encodings in list order; file forms write exactly the string form), INFL.indent (the indent flag only adds whitespace), SEQ.types (every typed read of a '#seq' entry in the sequence encoder accepts both int and float64, so equal MapSeqs are ordered alike however they were built), VALID.coupling (the optional validity check reads a copy and returns the accumulator's bytes untouched, so the document does not depend on the check being on), TAGS.protocol / TAGS.seqprotocol (in particular: no indentation is written between an element's own text and its end tag, where it would become character data), EFFECT.nondet (no goroutine/time/rand/pool on encoder paths), FWD.variadic/FWD.param (options forwarded), OPT.scope (encoders read only encoder options). Not decided: byte identity between variants beyond the structural identity of the bytes handed on. ROOT.single / ROOT.ownkey; EFFECT.nondet counts object identity as a source. EFFECT.recv of the six encoders (encoding twice gives the same bytes because the receiver is not written)."+levelNote,
 		nil,
 		func(p *Prog, r *Report) { ruleOrder(p, r, encoderRoots()) },
 		func(p *Prog, r *Report) { ruleNondet(p, r, encoderRoots()) },
 		ruleWrapWriter, ruleWrapConcat, ruleInflIndent, ruleValidCoupling, ruleSeqTypes, ruleJsonNoMarshal, ruleRootSingle, ruleRootOwnKey,
+		func(p *Prog, r *Report) {
+			ruleEffectRecv(p, r, p.named("mxj.Map.Xml", "mxj.Map.XmlIndent", "mxj.MapSeq.Xml", "mxj.MapSeq.XmlIndent", "mxj.Map.Json", "mxj.Map.JsonIndent"), "EFFECT.recv")
+		},
 		func(p *Prog, r *Report) {
 			ruleFwdNames(p, r, func(n string) bool { return hasPrefixAny(n, "mxj.Maps.", "mxj.Map.", "mxj.MapSeq.", "mxj.AnyXml", "mxj.BeautifyXml") })
 		},
@@ -402,15 +415,15 @@ func init() {
 		ruleOptWriters, ruleOptCallers)
 
 	register("C18",
-		"Structural necessary conditions of 'options have only their documented effect and can be restored', decided for every call history: OPT.writers (each package variable is stored only by init and its named setter: no hidden state survives a reset), OPT.setter (per setter and argument-count class {0,1,>=2}, every CFG path stores the documented value: toggle / explicit / unchanged; explicit stores do not depend on the old value), OPT.excl (encoder- and decoder-side escaping never both on at a setter exit), OPT.dead (every option is read by some non-setter), PAIR.derived (lenAttrPrefix and trimRunes are recomputed with their master variable), OPT.scope (API groups never load options documented not to affect them), INFL.castflag (cast options are read only under the cast flag). Not decided: behavioural equality with a fresh process; restorability of SetGlobalKeyMapPrefix for arbitrary prefix characters. OPT.callers; TABLE.trimset."+levelNote,
+		"Structural necessary conditions of 'options have only their documented effect and can be restored', decided for every call history: OPT.writers (each package variable is stored only by init and its named setter: no hidden state survives a reset), OPT.setter (per setter and argument-count class {0,1,>=2}, every CFG path stores the documented value: toggle / explicit / unchanged; explicit stores do not depend on the old value), OPT.excl (encoder- and decoder-side escaping never both on at a setter exit), OPT.dead (every option is read by some non-setter), PAIR.derived (lenAttrPrefix and trimRunes are recomputed with their master variable), OPT.scope (API groups never load options documented not to affect them), INFL.castflag (cast options are read only under the cast flag). Not decided: behavioural equality with a fresh process; restorability of SetGlobalKeyMapPrefix for arbitrary prefix characters. OPT.callers; TABLE.trimset. WRAP.exactarg (the key-pair syntax of NewMap does not depend on options)."+levelNote,
 		[]string{"option documentation transcribed in tables.go/rules_opt.go"},
-		ruleOptWriters, ruleOptSetter, ruleSeqCastTag, ruleOptExcl, func(p *Prog, r *Report) { ruleOptDead(p, r, "mxj") }, rulePairDerived, ruleOptCallers, ruleTableTrimSet,
+		ruleOptWriters, ruleOptSetter, ruleSeqCastTag, ruleOptExcl, func(p *Prog, r *Report) { ruleOptDead(p, r, "mxj") }, rulePairDerived, ruleOptCallers, ruleTableTrimSet, ruleNewMapArgs,
 		func(p *Prog, r *Report) { ruleOptScope(p, r) }, ruleInflCastFlag)
 
 	register("C19",
-		"Structural clauses of 'files, gob and Copy read back equal': WRAP.concat (file writers write exactly the string form, which is the concatenation of per-Map encodings), WRAP.fileloop (readers loop on the raw reader over the opened file; exits only by io.EOF or an error return carrying the Maps read so far; every decoded Map is appended), TABLE.gob (Encode/Decode type agreement; container types registered), WRAP.compose + OWN.fresh (Copy), JSON.decoder (every JSON decode the reader and file functions reach is the one Decoder of NewMapJson on which UseNumber is set under JsonUseNumber: numbers written from json.Number values are read back as such), ERR.path on the file and gob functions. Not decided: equality of what is read back; behaviour on truncated files. WRAP.fileloop append-after-error-test clause."+levelNote,
+		"Structural clauses of 'files, gob and Copy read back equal': WRAP.concat (file writers write exactly the string form, which is the concatenation of per-Map encodings), WRAP.fileloop (readers loop on the raw reader over the opened file; exits only by io.EOF or an error return carrying the Maps read so far; every decoded Map is appended), TABLE.gob (Encode/Decode type agreement; container types registered), WRAP.compose + OWN.fresh (Copy), JSON.decoder (every JSON decode the reader and file functions reach is the one Decoder of NewMapJson on which UseNumber is set under JsonUseNumber: numbers written from json.Number values are read back as such), ERR.path on the file and gob functions. Not decided: equality of what is read back; behaviour on truncated files. WRAP.fileloop append-after-error-test clause. WRAP.fileloop clause: no os.Lstat below the readers."+levelNote,
 		nil,
-		ruleWrapConcat, ruleWrapFileLoop, ruleTableGob, ruleJsonEscape,
+		ruleWrapConcat, ruleWrapFileLoop, ruleTableGob, ruleJsonEscape, ruleFileNoLstat,
 		func(p *Prog, r *Report) { ruleJsonScanClosing(p, r, "mxj.getJson") },
 		func(p *Prog, r *Report) { ruleJsonScanEscape(p, r, "mxj.getJson") },
 		func(p *Prog, r *Report) {
